@@ -7,6 +7,7 @@ import (
 	"encoding/json"
 	"fmt"
 	"os"
+	"path/filepath"
 	"sort"
 	"testing"
 
@@ -24,7 +25,9 @@ var timeZero = time.Unix(0, 0)
 
 // Op: ban / unban of key K requested at broker B (0 = A, 1 = B) with the master key; use = an operation presenting
 // key K at broker B (How: pub | sub); gossip = everything broker B has broadcast so far is merged at the other broker;
-// restart = broker B is closed and re-created on the same state directory.
+// restart = broker B is closed and re-created on the same state directory; damaged = the same, but the ban file has a
+// damaged tail when the broker comes back (the machine went down while the file was being written): the broker may
+// refuse to start - then the file is repaired and it is started again - or start with every acknowledged ban in force.
 type Op struct {
 	K   string `json:"op"`
 	B   int    `json:"b"`
@@ -52,8 +55,10 @@ func genCase(t *rapid.T) Case {
 			op.How = rapid.SampledFrom([]string{"pub", "pub", "sub"}).Draw(t, "how")
 		case k < 18:
 			op.K = "gossip"
-		default:
+		case k < 19:
 			op.K = "restart"
+		default:
+			op.K = rapid.SampledFrom([]string{"restart", "damaged"}).Draw(t, "restartKind")
 		}
 		c.Ops = append(c.Ops, op)
 	}
@@ -85,7 +90,12 @@ type node struct {
 	sent [][]view // model of each captured payload: per key (seq 0 = not carried)
 }
 
-func (n *node) start() error {
+func (n *node) start() (err error) {
+	defer func() {
+		if p := recover(); p != nil {
+			err = fmt.Errorf("refused to start: %v", p)
+		}
+	}()
 	b, err := vkit.NewBroker(vkit.BrokerOpts{Dir: n.dir, Node: n.name, LicSeed: "c14"})
 	if err != nil {
 		return err
@@ -213,13 +223,34 @@ func run(c Case) vkit.Result {
 				}
 			}
 			n.cap.out, n.sent = nil, nil
-		case "restart":
+		case "restart", "damaged":
 			if err := n.cl.Close(); err != nil {
 				return vkit.Failf("step %d: close: %v", step, err)
 			}
 			n.b.S.Close()
 			pend, pendM := n.cap.out, n.sent
-			if err := n.start(); err != nil {
+			started := false
+			if op.K == "damaged" {
+				file := filepath.Join(n.dir, "ban.db")
+				if st, err := os.Stat(file); err == nil {
+					f, _ := os.OpenFile(file, os.O_APPEND|os.O_WRONLY, 0644)
+					if step%2 == 0 {
+						f.WriteString("*3\r\n$3\r\nset\r\n$900\r\n\x00\x01a-record-cut-short\r\n") // a torn last record
+					} else {
+						f.WriteString("\x7f\x13garbage\r\n") // not a record at all
+					}
+					f.Close()
+					labels["ban-file-damaged"] = true
+					if err := n.start(); err != nil { // refusing to come up is fine: nothing is accepted then
+						labels["ban-file-damaged-refused"] = true
+						os.Truncate(file, st.Size())
+					} else {
+						started = true
+					}
+				}
+			}
+			if started {
+			} else if err := n.start(); err != nil {
 				return vkit.Failf("step %d: broker does not restart on its state directory: %v", step, err)
 			}
 			n.cap.out, n.sent = pend, pendM // payloads already handed to the transport stay in flight
@@ -245,8 +276,8 @@ func hist(ops []Op) string {
 			s += fmt.Sprintf("%s(k%d)@%d ", o.How, o.Key, o.B)
 		case "gossip":
 			s += fmt.Sprintf("gossip %d->%d ", o.B, 1-o.B)
-		case "restart":
-			s += fmt.Sprintf("restart@%d ", o.B)
+		case "restart", "damaged":
+			s += fmt.Sprintf("%s@%d ", o.K, o.B)
 		default:
 			s += fmt.Sprintf("%s(k%d)@%d ", o.K, o.Key, o.B)
 		}
